@@ -172,7 +172,8 @@ STATUSES = ("shouldrun", "submitted", "running", "completed", "failed", "cancell
 
 
 class Project:
-    base_mtime = BASE_MTIME  # mtime of tick 0; ticks are 10 s apart (instances may override)
+    base_mtime = BASE_MTIME  # mtime of tick 0 (instances may override)
+    tick_step = 10  # seconds between two ticks (a fraction exercises sub-second mtimes)
 
     def __init__(self, desc, backend="slurm", config=None, first_id=1001, subdirs=()):
         base = "/dev/shm" if os.path.isdir("/dev/shm") else None
@@ -253,8 +254,9 @@ class Project:
             self.tick = max(self.tick, tick or 0)
 
     def stamp(self, rel, tick):
-        t = self.base_mtime + tick * 10
-        os.utime(self.path(rel), (t, t))
+        t = self.base_mtime + tick * self.tick_step
+        ns = int(round(t * 1_000_000_000))
+        os.utime(self.path(rel), ns=(ns, ns))
 
     def next_tick(self):
         self.tick += 1
@@ -265,7 +267,7 @@ class Project:
             m = os.stat(self.path(rel)).st_mtime
         except FileNotFoundError:
             return None
-        return (m - self.base_mtime) / 10
+        return round((m - self.base_mtime) / self.tick_step, 6)
 
     def file_state(self, rels):
         return {r: self.tick_of(r) for r in rels}
@@ -325,7 +327,7 @@ class Project:
             return {}
 
     # ------------------------------------------------------------ drivers
-    def gwf(self, args, input=None, cwd=None, extra_env=None, track_fs=False):
+    def gwf(self, args, input=None, cwd=None, extra_env=None, track_fs=False, syspath0=None, purge_root=None):
         """Run one gwf command in-process (fresh workflow load, fresh state files).
         With track_fs, os.utime/os.open(O_CREAT)/open(w) events inside the project are
         recorded in order (Res.fs_events) so the harness can assign logical mtimes."""
@@ -377,6 +379,9 @@ class Project:
                 return r
 
             os.utime, os.open = utime, os_open
+        saved_modules = set(sys.modules)
+        if syspath0 is not None:
+            sys.path.insert(0, syspath0)  # what `python -c` / `python -m` put first: the invoking directory
         os.environ["PATH"] = bdir + os.pathsep + saved_env.get("PATH", "")
         os.environ.pop("NO_COLOR", None)
         if extra_env:
@@ -397,6 +402,10 @@ class Project:
             root.setLevel(saved_level)
             sys.path[:] = saved_path
             click._compat.isatty = saved_isatty
+            for name in set(sys.modules) - saved_modules:
+                f = getattr(sys.modules[name], "__file__", None) or ""
+                if purge_root and f.startswith(purge_root):
+                    del sys.modules[name]  # helper modules of the workflow: every invocation is a fresh process
         try:
             err = r.stderr
         except (ValueError, AttributeError):
